@@ -121,7 +121,7 @@ PROPS.update({
         "assumptions": ["the compiler's treatment of mixing volatile and non-volatile accesses (the source's own FIXME) is outside the model"],
     },
     "C05": {
-        "modules": ["VmMem.Props.C05"], "theorems": T("C05"),
+        "modules": ["VmMem.Props.C05", "VmMem.Props.C05h"], "theorems": T("C05") + T("C05h"),
         "runs": lambda tier: runs_slice(tier, streams=True) + runs_gm(tier, ["mixed"], chk=False),
         "trusted_base": ["C09 (bitmap refines a page set)", "writes through raw pointers/references are exempt by the statement"],
         "assumptions": ["the bitmap covers the container (byte_size >= offset + len), as the region constructors arrange"],
